@@ -28,7 +28,8 @@
 
    The model is of the code AFTER the fix "fix: highlighter truncated a colour
    code ..." (the `->` / `=>` case trims the previously written `-`/`=` only if
-   it is the last byte of the highlighted string).  *)
+   it is the last byte of the highlighted string) and the fix "tokenizer joined
+   command names across flow tokens" (endFunc).  *)
 From Murex Require Import Base.Outcome Base.Bytes.
 From Murex Require Import Gen.HlCodes Gen.SafeCmds.
 Local Open Scope N_scope.
@@ -299,8 +300,17 @@ Definition prev_is (prev : option N) (r : N) : bool :=
 (* if pos != 0 && pt.Loc >= pos { return } *)
 Definition early (pos : Z) (t : tok) : bool := negb (pos =? 0)%Z && (pos <=? t_loc t)%Z.
 
+(* endFunc(): a flow token (or `{`) ends the command name being read even when no
+   white space precedes it; the name is judged now (fix "tokenizer joined command
+   names across flow tokens") *)
+Definition end_func (t : tok) : tok :=
+  if t_read_func t
+  then set_unsafe (is_cmd_unsafe (t_func t) || t_unsafe t) (set_read_func false t)
+  else t.
+
 (* the assignments shared by every flow token *)
-Definition flow (i : Z) (pipe : N) (t : tok) : tok :=
+Definition flow (i : Z) (pipe : N) (t0 : tok) : tok :=
+  let t := end_func t0 in
   set_nparams 0 (set_last_func (t_func t) (set_pop_func true (set_pipe pipe
     (set_sq false (set_expect_func true (set_last_flow i t)))))).
 
@@ -383,7 +393,7 @@ Definition switch (pos : Z) (prev : option N) (i : Z) (c : N) (tl : list N) (t :
       cont (set_unsafe (is_cmd_unsafe (t_func t) || t_unsafe t) (set_pop_func false
              (set_nparams (t_nparams t + 1) (set_read_func false (set_expect_func false
              (set_loc i t)))))) [AReset c]
-    else cont t [ARaw c]
+    else cont (set_unsafe true t) [ARaw c]      (* `:type` cast position *)
   else if c =? 62 then (* '>' *)
     if t_escaped t then escaped_ c t
     else if inq t then cont (pop_add 32 t) [ARaw c]
@@ -443,7 +453,7 @@ Definition switch (pos : Z) (prev : option N) (i : Z) (c : N) (tl : list N) (t :
     else if inq t then add_raw c t
     else if next_is tl 58 || next_is tl 63 then
       if early pos t then mk_sres KEarly t []
-      else cont_skip 1 (flow i 0 t) [AChar hl_pipe (c :: firstn 1 tl); AStartFunc]
+      else cont_skip 1 (set_unsafe true (flow i 0 t)) [AChar hl_pipe (c :: firstn 1 tl); AStartFunc]
     else if prev_is prev 32 then
       if early pos t then mk_sres KEarly t []
       else cont (set_unsafe true (flow i 4 t)) [AChar hl_pipe [c]; ACode hl_function]
@@ -453,6 +463,7 @@ Definition switch (pos : Z) (prev : option N) (i : Z) (c : N) (tl : list N) (t :
     if t_escaped t then escaped_ c t
     else if inq t then add_raw c t
     else
+      let t := end_func t in
       let n := (t_nested t + 1)%Z in
       cont (set_nparams 0 (set_pop_func true (set_pipe 0 (set_expect_func true (set_nested n t)))))
            (block_open_acts n)
